@@ -134,6 +134,30 @@ def replay_pair(model_a: bytes, model_b: bytes, feeds: dict) -> dict:
             "reference_agrees": (dref is not None) == (d is not None), "reference_difference": dref}
 
 
+def replay_pair_random(model_a: bytes, model_b: bytes, spec, tries: int = 6, seed: int = 0):
+    """The solver's model for a query that contains uninterpreted functions (exp, DFT, ...) fixes the function, not a
+    usable input: replay the *structural* difference it found on a few seeded random inputs instead.
+    -> (replay dict, feeds) of the first reproducing input, or (last dict, feeds)."""
+    from .values import DT
+    rng = np.random.default_rng(seed)
+    last = None
+    for _ in range(tries):
+        feeds = {}
+        for n, dt, sh in spec:
+            npdt = DT(dt).numpy()
+            if npdt.kind == "f":
+                feeds[n] = (rng.integers(-8, 9, size=sh) / 4).astype(npdt)
+            elif npdt.kind == "b":
+                feeds[n] = rng.integers(0, 2, size=sh).astype(bool)
+            else:
+                feeds[n] = rng.integers(-3, 4, size=sh).astype(npdt)
+        rep = replay_pair(model_a, model_b, feeds)
+        last = (rep, feeds)
+        if rep["reproduced"]:
+            return rep, feeds
+    return last
+
+
 def replay_script(src: str, entry: str, order: list, feeds: dict, attrs: dict, model_bytes: bytes, tag="replay") -> dict:
     """eager (real evaluator, real NumPy) vs the model on onnxruntime"""
     from . import scripts as S
